@@ -29,7 +29,7 @@ FILL = ["The court considered the matter at length.", "That reasoning is persuas
 
 
 def setup(tier):
-    tk.get(("ac",))
+    tk.get(("ac", "hs"))
 
 
 def valid_name(name):
@@ -61,8 +61,10 @@ def evaluate(case):
     if isinstance(plain, Raised):
         res.label("raised")
         return res
-    a = call(get_citations, markup_text=m, clean_steps=list(steps))
-    b = call(get_citations, plain)
+    tok = tk.get((case.get("tokenizer", "ac"),))[case.get("tokenizer", "ac")]
+    res.label("tokenizer:" + case.get("tokenizer", "ac"))
+    a = call(get_citations, markup_text=m, clean_steps=list(steps), tokenizer=tok)
+    b = call(get_citations, plain, tokenizer=tok)
     if isinstance(a, Raised) or isinstance(b, Raised):
         res.label("raised")
         return res
@@ -211,4 +213,5 @@ def phases(tier):
         Phase("scenario-markup", "gen", strategy=scenario_markup, n=n),
         Phase("grammar-markup", "gen", strategy=lambda: mk.marked_up(p_wrap=5), n=n2),
         Phase("after-other-names", "gen", strategy=after_other_names, n=n2),
+        Phase("scenario-markup-hs", "gen", strategy=lambda: scenario_markup().map(lambda c: {**c, "tokenizer": "hs"}), n=n // 5),
     ]
